@@ -22,6 +22,28 @@ def newline_exclusivity(chk, P):
         chk.require(not spec.is_skipped("Eol"), "LEX", "LEX:%s:Eol-is-yielded" % enum.split("::")[-1], "Eol is a yielded token", "Eol is skipped by the lexer")
 
 
+def counted_text_rule(chk, P, ctx):
+    """The lines are counted over the very text the caller handed in: the lexer runs over the constructor's own `input`,
+    parse() and from_str() hand their argument on untouched, and a test loaded from a .dig file is parsed from its public
+    `source` field as it stands (no trimming, no offset) — the text the reported lines refer to."""
+    hn = P.body("parser::HeaderParser::new")
+    if chk.anchor("HeaderParser::new", hn):
+        r = set(canon(P.resolve(hn, P.sl(hn).ret(rb))) for rb in P.cfg(hn).return_blocks())
+        chk.require(r == {"parser::HeaderParser{input: input, iter: Logos::lexer(input), line: 1}"}, "ORG", "ORG:counted-text:header-lexer-runs-over-the-whole-input", "HeaderParser{input, iter: lexer(input), line: 1}", "HeaderParser::new builds %s" % sorted(r))
+    pp = P.body("parsed_test_case::ParsedTestCase::parse")
+    if chk.anchor("ParsedTestCase::parse", pp):
+        args = [[canon(x) for x in P.call_arg_terms(pp, bb)] for bb, t in pp.calls() if callee_name(t)[0] == "parser::HeaderParser::new"]
+        chk.require(args == [["input"]], "ORG", "ORG:counted-text:parse-hands-its-input-on", "HeaderParser::new(input)", "ParsedTestCase::parse starts the header parser on %s" % args)
+        frm = [[canon(x) for x in P.call_arg_terms(pp, bb)][0] for bb, t in pp.calls() if callee_name(t)[0] == "parser::Parser::from"]
+        chk.require(frm == ["HeaderParser::new(input)"], "ORG", "ORG:counted-text:body-parser-continues-the-same-lexer", "Parser::from(the header parser, ..)", "the body parser is built from %s" % frm)
+    fs = P.body("<parsed_test_case::ParsedTestCase as std::str::FromStr>::from_str")
+    if chk.anchor("FromStr for ParsedTestCase", fs):
+        r = set(canon(P.resolve(fs, P.sl(fs).ret(rb))) for rb in P.cfg(fs).return_blocks())
+        chk.require(r == {"ParsedTestCase::parse(input)"}, "ORG", "ORG:counted-text:from_str-forwards", "ParsedTestCase::parse(input)", "from_str returns %s" % sorted(r))
+    from . import c16
+    c16.run(chk.only(("TAB:load_test",)), ctx)
+
+
 def line_counter_rules(chk, P):
     # who writes the two counters
     for owner, allowed in (("parser::HeaderParser", {"parser::HeaderParser::parse"}), ("parser::Parser", {"parser::Parser::get"})):
@@ -175,6 +197,7 @@ def run(chk, ctx):
                        "ORG (Stmt.line -> DataEntries.line -> EvaluatedRow.line -> DataRow.line -> StaticDataRow.line by copies only; expansion clones keep it).")
     chk.trusted = ["logos: '\\n' always lexes as Eol (longest match among patterns that can start with it: only Eol)"]
     newline_exclusivity(chk, P)
+    counted_text_rule(chk, P, ctx)
     L, T = line_counter_rules(chk, P)
     L.need("TKA")
     row_line_rules(chk, P, T)
